@@ -84,6 +84,7 @@ type FnCtx struct {
 	breakStk  []*jumpTarget
 	oblNames  map[string]int
 	havocs    int
+	mapsUsed  bool // the body touches entries of an integer map (maps.go): calls may change them
 	notes     []string
 	assumptions map[string]bool
 	maintainN   int
@@ -531,6 +532,12 @@ func (fc *FnCtx) structField(sv VStruct, name string, hint string) (Val, VStruct
 		panic(unsupported("no field " + name + " in " + sv.Typ.String()))
 	}
 	v := fc.freshVal(ft, hint+"."+name)
+	if sv.F != nil {
+		// remember the materialised field in the value itself: every holder of this (unknown) struct value sees the
+		// same unknown for the field, also a reader that does not store the struct back (contract evaluation)
+		sv.F[name] = v
+		return v, sv
+	}
 	nf := make(map[string]Val, len(sv.F)+1)
 	for k, x := range sv.F {
 		nf[k] = x
